@@ -4,7 +4,9 @@ Monitor (E4): real master + workers of every worker class; the harness establish
 with the test application and by client scripting, connections in five phases (accepted-idle, head
 partly sent, application running, response partly written, keep-alive idle), then sends TERM / INT /
 QUIT and observes client byte streams, the master's exit status and time, /proc, the listening
-address, the pid file and the unix socket file.
+address, the pid file and the unix socket file.  Two further dimensions: the graceful timeout in force
+was set by a reload (config file rewritten + HUP before the requests start), and a worker whose
+`worker_connections` slots are all busy with one more client connected when the signal arrives.
 """
 import json
 import os
@@ -18,8 +20,9 @@ from vlib.common import Run, rng_for
 PROP = "C04"
 RULE = ("scenario = (worker class in {sync,gthread,gevent,eventlet}, signal in {TERM,INT,QUIT}, bind in {tcp,unix}, "
         "graceful_timeout, set of simultaneously established connection phases {idle, partial-head, app-running, "
-        "partial-response, keepalive-idle}, application duration class {finishes, overruns, never}); distinct = scenario "
-        "tuple; non-trivial = at least one in-flight phase")
+        "partial-response, keepalive-idle}, application duration class {finishes, overruns, never}, graceful_timeout "
+        "raised / lowered by a reload before the requests start, worker_connections exhausted plus one more connected "
+        "client at the signal); distinct = scenario tuple; non-trivial = at least one in-flight phase")
 
 PHASES = ["idle", "partial", "app", "stream", "keepalive"]
 SIGS = {"TERM": signal.SIGTERM, "INT": signal.SIGINT, "QUIT": signal.SIGQUIT}
@@ -114,6 +117,17 @@ def client_keepalive(e4, srv, res, ev):
         s.close()
 
 
+def wait_replaced(e4, srv, old, n, timeout):
+    """After a HUP: n booted workers, none of them from the old pool (None: it did not happen in time)."""
+    t0 = time.monotonic()
+    while time.monotonic() - t0 < timeout and e4.alive(srv.master_pid):
+        w = srv.wait_workers(n, 1.0)
+        if w and not (set(w) & set(old)):
+            return w
+        time.sleep(0.05)
+    return None
+
+
 def run_scenario(run, e4, sc):
     """Returns (violations, inconclusive_reason|None, info)."""
     v = []
@@ -123,7 +137,10 @@ def run_scenario(run, e4, sc):
     settings = {"graceful_timeout": graceful, "timeout": 30, "keepalive": 5}
     if wc == "gthread":
         settings["threads"] = 6
+    if sc.get("worker_connections"):
+        settings["worker_connections"] = sc["worker_connections"]
     workers = max(2, nblock + 1) if wc == "sync" else 2
+    workers = sc.get("workers") or workers
     srv = e4.Server("c04", worker_class=wc, workers=workers, settings=settings, bind=sc["bind"])
     settings["pidfile"] = os.path.join(srv.dir, "g.pid")
     srv.write_conf(pidfile=settings["pidfile"])
@@ -137,12 +154,25 @@ def run_scenario(run, e4, sc):
             return v, "server did not boot: %s" % srv.stderr()[-300:], info
         if not os.path.exists(settings["pidfile"]):
             v.append(("pidfile-not-created", "pid file missing while the master runs"))
+        if sc.get("reload_graceful"):
+            # the graceful timeout in force when the server is stopped is the one a reload brought: the file is rewritten,
+            # HUP, and only once the whole pool runs the new configuration do the requests start
+            srv.write_conf(graceful_timeout=sc["reload_graceful"])
+            srv.signal(signal.SIGHUP)
+            w = wait_replaced(e4, srv, w, workers, 20)
+            if not w:
+                return v, "the reload that changes graceful_timeout did not complete: %s" % srv.stderr()[-300:], info
+            info["graceful_before_reload"] = graceful
+            graceful = sc["reload_graceful"]
         res, ev, threads = {}, {p: threading.Event() for p in PHASES}, []
         res["_partial_delay"] = sc.get("partial_delay", 0.2)
         go = threading.Event()
         tag = "%08x" % (hash((wc, signame, sc["bind"], tuple(phases), sc["seed"])) & 0xffffffff)
+        idle_thread = None
         if "idle" in phases:
-            threads.append(threading.Thread(target=client_idle, args=(e4, srv, res, ev)))
+            idle_thread = threading.Thread(target=client_idle, args=(e4, srv, res, ev))
+            if not sc.get("idle_last"):
+                threads.append(idle_thread)
         if "partial" in phases:
             threads.append(threading.Thread(target=client_partial, args=(e4, srv, res, ev, go)))
         busy_addr = srv.addr2 if (sc["bind"] == "both" and sc.get("busy_on") == "unix") else srv.addr
@@ -158,17 +188,27 @@ def run_scenario(run, e4, sc):
         # establish every phase
         ok = True
         for p in phases:
+            if p == "idle" and sc.get("idle_last"):
+                continue
             if p in ("idle", "partial", "keepalive"):
                 ok = ok and ev[p].wait(10)
             elif p == "app":
                 ok = ok and srv.wait_phase("entered a" + tag, 10) is not None
             elif p == "stream":
                 ok = ok and srv.wait_phase("first-chunk s" + tag, 10) is not None
+        if ok and idle_thread is not None and sc.get("idle_last"):
+            # the idle client connects only now, when every other connection is established: with worker_connections equal to
+            # their number it is the one client too many (accepted by a worker that has no slot for it, or left in the backlog)
+            idle_thread.daemon = True
+            idle_thread.start()
+            threads.append(idle_thread)
+            ok = ev["idle"].wait(10)
+            time.sleep(0.3)
         for p in ("idle", "partial", "keepalive"):
             if p in phases and res.get(p, {}).get("err"):
                 ok = False
         if not ok:
-            return v, "could not establish phases %s: %s" % (phases, {k: r.get("err") for k, r in res.items()}), info
+            return v, "could not establish phases %s: %s" % (phases, {k: r.get("err") for k, r in res.items() if isinstance(r, dict)}), info
         time.sleep(0.15)
         workers_before = srv.worker_pids()
         if sc.get("retire"):
@@ -234,6 +274,10 @@ def run_scenario(run, e4, sc):
         # ---- client side -----------------------------------------------------------------------
         for t in threads:
             t.join(3)
+        if sc.get("reload_graceful") and timing_inconclusive is None:
+            run.count("graceful_%s_by_reload_checks" % ("raised" if sc["reload_graceful"] > sc["graceful"] else "lowered"))
+        if sc.get("idle_last") and sc.get("worker_connections"):
+            run.count("pool_full_at_stop_checks/" + wc)
         for p in phases:
             r = res.get(p)
             if r is None:
@@ -305,6 +349,20 @@ def scenarios(tier, seed):
     for wc in classes:
         out.append({"class": wc, "signal": "TERM", "bind": "both", "graceful": 5, "phases": ["app", "stream"],
                     "duration": "finishes", "app_delay": rng.choice([1.5, 2.5]), "busy_on": rng.choice(["tcp", "unix"])})
+    # the graceful timeout in force was brought by a reload (own generator: the scenarios above stay what they were).  Raised: a
+    # request that needs longer than the old value and less than the new one is in flight at TERM.  Lowered: the application never
+    # finishes (sync: only the master's own deadline ends such a worker) and the master must be gone after the new value.
+    r3 = rng_for(seed, "c04-reload-graceful")
+    for wc in (classes if tier == "thorough" else [r3.choice(classes)]):
+        out.append({"class": wc, "signal": "TERM", "bind": r3.choice(["tcp", "unix"]), "graceful": 2, "reload_graceful": 7,
+                    "phases": ["app", "stream"], "duration": "finishes", "app_delay": r3.choice([3.5, 4.0])})
+    out.append({"class": "sync", "signal": "TERM", "bind": r3.choice(["tcp", "unix"]), "graceful": 9, "reload_graceful": 2,
+                "phases": ["app"], "duration": "never"})
+    # every worker_connections slot of the only worker is busy and one more client has connected when TERM arrives (the green
+    # worker classes: a threaded worker with every slot taken stops polling altogether, which is C13's subject)
+    for wc in ("eventlet", "gevent"):
+        out.append({"class": wc, "signal": "TERM", "bind": r3.choice(["tcp", "unix"]), "graceful": 6, "phases": ["idle", "app", "stream"],
+                    "duration": "finishes", "app_delay": r3.choice([2.0, 2.5]), "workers": 1, "worker_connections": 2, "idle_last": True})
     if tier == "thorough":
         for s2 in range(5):
             r2 = rng_for(seed, "c04-thorough", s2)
@@ -332,13 +390,15 @@ def shard(sh):
         if reason is None or v:
             break
         run.count("retries_after_inconclusive")
-    run.case(json.dumps({k: sc.get(k) for k in ("class", "signal", "bind", "phases", "duration", "graceful", "partial_delay", "busy_on", "retire", "pidfile_garbage")}, sort_keys=True))
+    run.case(json.dumps({k: sc.get(k) for k in ("class", "signal", "bind", "phases", "duration", "graceful", "partial_delay", "busy_on", "retire", "pidfile_garbage",
+                                                 "reload_graceful", "worker_connections", "workers")}, sort_keys=True))
     run.count("scenarios")
     run.count("class/" + sc["class"])
     run.count("signal/" + sc["signal"])
     run.count("bind/" + sc["bind"])
     for mech, summary in v:
-        run.violation(mech, summary + " | scenario=%s info=%s" % ({k: sc[k] for k in ("class", "signal", "bind", "phases", "duration")}, info), sc)
+        run.violation(mech, summary + " | scenario=%s info=%s" % ({k: sc[k] for k in ("class", "signal", "bind", "phases", "duration", "graceful", "reload_graceful", "worker_connections",
+                                                                         "workers") if k in sc}, info), sc)
     if reason is not None and not v:
         if "scheduling lag" in reason:
             run.count("cells_skipped_for_scheduling_lag")      # measured lag made the wall-clock judgement unsafe, three times
@@ -353,13 +413,16 @@ def main(tier, seed):
     run.require("scenarios", "in_flight_answered", "listener_closed_checks", "class/sync", "class/gthread", "class/gevent",
                 "class/eventlet", "signal/TERM", "signal/INT", "bind/tcp", "bind/unix",
                 "cell/partial/sync/TERM", "cell/app/gthread/TERM", "cell/stream/gevent/TERM", "cell/app/eventlet/TERM",
-                "two_listener_in_flight_checks")
+                "two_listener_in_flight_checks", "graceful_raised_by_reload_checks", "graceful_lowered_by_reload_checks",
+                "pool_full_at_stop_checks/eventlet")
     scs = scenarios(tier, seed)
     shards = [{"scenario": sc, "seed": seed, "tier": tier} for sc in scs]
     run.assumptions = [
         "slack: master exit is late only beyond graceful_timeout (TERM) or 2 s (INT/QUIT) plus 3 s, and only when the measured scheduling lag is below 0.5 s",
         "phases are established by handshake (phase log / release files) before the signal is sent; a connection that is idle or keep-alive idle carries no request in progress",
         "TLS, reuse_port and systemd socket activation are not part of the scenarios",
+        "after a reload that changes graceful_timeout the value in force is the reloaded one (judged only once every worker of the "
+        "pool was started by that reload); the lowered-by-reload cell is a wall-clock judgement and is skipped under scheduling lag",
     ]
     common.run_sharded(run, shards, timeout=600 if tier == "quick" else 3600, nproc=min(12, common.NCPU))
     return run.finish()
